@@ -321,6 +321,8 @@ impl<C: ServerContext> HttpServerStarter<C> {
                 },
             };
 
+            #[cfg(dropshot_verif)]
+            crate::verif::emit("accept_exit", serde_json::json!({}));
             // optional: could use another select on a timeout
             graceful.shutdown().await
         });
@@ -333,7 +335,11 @@ impl<C: ServerContext> HttpServerStarter<C> {
             () = join_handle
                 .await
                 .map_err(|e| format!("server stopped: {e}"))?;
+            #[cfg(dropshot_verif)]
+            crate::verif::emit("graceful_done", serde_json::json!({}));
             () = handler_waitgroup.wait().await;
+            #[cfg(dropshot_verif)]
+            crate::verif::emit("waitgroup_done", serde_json::json!({}));
             Ok(())
         };
 
@@ -676,6 +682,8 @@ impl<C: ServerContext> HttpServer<C> {
 
     /// Signals the currently running server to stop and waits for it to exit.
     pub async fn close(mut self) -> Result<(), String> {
+        #[cfg(dropshot_verif)]
+        crate::verif::emit("close_requested", serde_json::json!({ "via": "close" }));
         self.closer
             .close_channel
             .take()
@@ -701,6 +709,8 @@ impl<C: ServerContext> HttpServer<C> {
 impl Drop for CloseHandle {
     fn drop(&mut self) {
         if let Some(c) = self.close_channel.take() {
+            #[cfg(dropshot_verif)]
+            crate::verif::emit("close_requested", serde_json::json!({ "via": "drop" }));
             // The other side of this channel is owned by a separate tokio task
             // that's running the hyper server.  We do not expect that to be
             // cancelled.  But it can happen if the executor itself is shutting
@@ -741,6 +751,23 @@ async fn http_request_handle_wrap<C: ServerContext>(
     // themselves.
     let start_time = std::time::Instant::now();
     let request_id = generate_request_id();
+    #[cfg(dropshot_verif)]
+    let verif_id = request_id.clone();
+    #[cfg(dropshot_verif)]
+    crate::verif::emit(
+        "req_start",
+        serde_json::json!({
+            "id": verif_id,
+            "m": request.method().as_str(),
+            "uri_hex": crate::verif::hex(request.uri().to_string().as_bytes()),
+            "n": request
+                .headers()
+                .get("x-verif-nonce")
+                .and_then(|v| v.to_str().ok())
+                .unwrap_or(""),
+            "port": remote_addr.port(),
+        }),
+    );
 
     let mut request_log = server.log.new(o!(
         "remote_addr" => remote_addr,
@@ -796,6 +823,11 @@ async fn http_request_handle_wrap<C: ServerContext>(
     // In the case the client disconnects early, the scopeguard allows us
     // to perform extra housekeeping before this task is dropped.
     let on_disconnect = guard((), |_| {
+        #[cfg(dropshot_verif)]
+        crate::verif::emit(
+            "req_cancelled",
+            serde_json::json!({ "id": verif_id }),
+        );
         let latency_us = start_time.elapsed().as_micros();
 
         warn!(request_log, "request handling cancelled (client disconnected)";
@@ -830,6 +862,8 @@ async fn http_request_handle_wrap<C: ServerContext>(
     // cancelled and we can safely "defuse" the scopeguard.
     let _ = ScopeGuard::into_inner(on_disconnect);
 
+    #[cfg(dropshot_verif)]
+    let verif_is_err = maybe_response.is_err();
     let latency_us = start_time.elapsed().as_micros();
     let response = match maybe_response {
         Err(error) => {
@@ -884,6 +918,27 @@ async fn http_request_handle_wrap<C: ServerContext>(
         }
     };
 
+    #[cfg(dropshot_verif)]
+    crate::verif::emit(
+        "resp_ready",
+        serde_json::json!({
+            "id": verif_id,
+            "status": response.status().as_u16(),
+            "err": verif_is_err,
+            "allow": response
+                .headers()
+                .get_all(http::header::ALLOW)
+                .iter()
+                .map(|v| v.to_str().unwrap_or("?").to_string())
+                .collect::<Vec<_>>(),
+            "idhdr": response
+                .headers()
+                .get_all(HEADER_REQUEST_ID)
+                .iter()
+                .map(|v| v.to_str().unwrap_or("?").to_string())
+                .collect::<Vec<_>>(),
+        }),
+    );
     Ok(response)
 }
 
@@ -905,11 +960,53 @@ async fn http_request_handle<C: ServerContext>(
     let uri = request.uri();
     let found_version =
         server.version_policy.request_version(&request, &request_log)?;
+    #[cfg(dropshot_verif)]
+    crate::verif::emit(
+        "version_ok",
+        serde_json::json!({
+            "id": request_id,
+            "v": found_version
+                .as_ref()
+                .map(|v| v.to_string())
+                .unwrap_or_else(|| "none".to_string()),
+        }),
+    );
     let lookup_result = server.router.lookup_route(
         &method,
         uri.path().into(),
         found_version.as_ref(),
     )?;
+    #[cfg(dropshot_verif)]
+    crate::verif::emit(
+        "route_ok",
+        serde_json::json!({
+            "id": request_id,
+            "op": lookup_result.endpoint.operation_id,
+            "vars": lookup_result
+                .endpoint
+                .variables
+                .iter()
+                .map(|(k, v)| {
+                    (
+                        k.clone(),
+                        match v {
+                            crate::router::VariableValue::String(s) => {
+                                serde_json::json!({ "s": s })
+                            }
+                            crate::router::VariableValue::Components(c) => {
+                                serde_json::json!({ "c": c })
+                            }
+                        },
+                    )
+                })
+                .collect::<serde_json::Map<_, _>>(),
+            "limit": lookup_result
+                .endpoint
+                .request_body_max_bytes
+                .map(|n| n as i64)
+                .unwrap_or(-1),
+        }),
+    );
     let rqctx = RequestContext {
         server: Arc::clone(&server),
         request: RequestInfo::new(&request, remote_addr),
@@ -932,6 +1029,10 @@ async fn http_request_handle<C: ServerContext>(
             let (tx, rx) = oneshot::channel();
             let request_log = rqctx.log.clone();
             let worker = server.handler_waitgroup_worker.clone();
+            #[cfg(dropshot_verif)]
+            let verif_id = request_id.to_string();
+            #[cfg(dropshot_verif)]
+            crate::verif::emit("spawn", serde_json::json!({ "id": verif_id }));
             let handler_task = tokio::spawn(async move {
                 let request_log = rqctx.log.clone();
                 let result = handler.handle_request(rqctx, request).await;
@@ -954,6 +1055,11 @@ async fn http_request_handle<C: ServerContext>(
                     }
                 }
 
+                #[cfg(dropshot_verif)]
+                crate::verif::emit(
+                    "task_exit",
+                    serde_json::json!({ "id": verif_id }),
+                );
                 // Drop our waitgroup worker, allowing graceful shutdown to
                 // complete (if it's waiting on us).
                 mem::drop(worker);
@@ -1023,6 +1129,11 @@ impl<C: ServerContext> ServerConnectionHandler<C> {
         remote_addr: SocketAddr,
     ) -> ServerRequestHandler<C> {
         info!(self.server.log, "accepted connection"; "remote_addr" => %remote_addr);
+        #[cfg(dropshot_verif)]
+        crate::verif::emit(
+            "accept",
+            serde_json::json!({ "port": remote_addr.port() }),
+        );
         ServerRequestHandler::new(self.server.clone(), remote_addr)
     }
 }
